@@ -150,7 +150,8 @@ def r10_2(ctx, rep):
     f2 = ctx.func(GEN, "Generator._ast_symbols_to_variables", R)
     ok = False
     for n in walk_local(f2):
-        if isinstance(n, ast.If) and norm(n.test) in ("python_type == str", "python_type is str"):
+        if isinstance(n, ast.If) and isinstance(n.test, ast.Compare) and len(n.test.ops) == 1 and isinstance(n.test.ops[0], (ast.Eq, ast.Is)) \
+                and isinstance(n.test.left, ast.Name) and is_name(n.test.comparators[0], "str"):
             b = any((call_name(c) or "") == "StringVariable" for s in n.body for c in calls(s))
             e = any((call_name(c) or "") == "Variable" for s in n.orelse for c in calls(s))
             ok = b and e
@@ -252,6 +253,17 @@ def r10_6(ctx, rep):
             rep.ob(R, site, "reuse of der(%s)" % subj, ok, "when the derivative exists already it must be returned, not re-created")
     if n < 2:
         raise MechanismMissing(R, "fewer than 2 derivative-creation sites found")
+
+
+@SPEC.rule(
+    "R10.7",
+    "the classification reads whole keywords: the prefix list it tests with `'parameter' in s.prefixes` etc. is built by the "
+    "parser with one entry per keyword of type_prefix (same rule as R04.11: no whitespace split of getText())",
+)
+def r10_7(ctx, rep):
+    from .c04 import gettext_split_rule
+
+    gettext_split_rule(ctx, rep, "R10.7")
 
 
 # -- seeded variants ---------------------------------------------------------
